@@ -16,6 +16,7 @@ import (
 	"strings"
 	"sync"
 	"sync/atomic"
+	"time"
 
 	"github.com/piotrnar/gocoin/lib/btc"
 	"github.com/piotrnar/gocoin/lib/chain"
@@ -193,6 +194,7 @@ type hist struct {
 	trace   []string
 	mtrace  []string // everything except get/length
 	dead    bool
+	panicked bool
 	lastRW  bool
 
 	maxIdxEver uint32
@@ -526,6 +528,7 @@ func (h *hist) safe(name string, f func()) (ok bool) {
 			}
 			h.c.fail("panic/"+name, fmt.Sprintf("%s panicked: %v", name, x), h.witness(map[string]interface{}{"stack": st}))
 			h.dead = true
+			h.panicked = true // the store may hold its mutex forever: never call into it again
 			ok = false
 		}
 	}()
@@ -879,7 +882,7 @@ type readers struct {
 	wrong   []string
 	gets    atomic.Int64
 	lens    atomic.Int64
-	minEach atomic.Int64
+	panicked atomic.Bool
 }
 
 func (h *hist) startReaders(n int, sessionBlocks []*mblock) *readers {
@@ -903,6 +906,7 @@ func (h *hist) startReaders(n int, sessionBlocks []*mblock) *readers {
 			defer rd.wg.Done()
 			defer func() {
 				if x := recover(); x != nil {
+					rd.panicked.Store(true)
 					rd.mu.Lock()
 					rd.wrong = append(rd.wrong, fmt.Sprintf("PANIC in reader: %v\n%s", x, vlib.Tail(debug.Stack(), 1200)))
 					rd.mu.Unlock()
@@ -946,6 +950,32 @@ func (h *hist) startReaders(n int, sessionBlocks []*mblock) *readers {
 	return rd
 }
 
+// waitReaders waits for the reader goroutines under a generous watchdog (2 minutes; 5 s once a
+// panic happened in the mutating thread or in a reader, which may have left the store's mutex
+// locked for ever). false = abandoned.
+func waitReaders(rd *readers, afterPanic bool) bool {
+	done := make(chan struct{})
+	go func() { rd.wg.Wait(); close(done) }()
+	start := time.Now()
+	var panicSeen time.Time
+	for {
+		select {
+		case <-done:
+			return true
+		case <-time.After(50 * time.Millisecond):
+		}
+		if (afterPanic || rd.panicked.Load()) && panicSeen.IsZero() {
+			panicSeen = time.Now()
+		}
+		if !panicSeen.IsZero() && time.Since(panicSeen) > 5*time.Second {
+			return false
+		}
+		if time.Since(start) > 2*time.Minute {
+			return false
+		}
+	}
+}
+
 func containsBlk(l []*mblock, b *mblock) bool {
 	for _, x := range l {
 		if x == b {
@@ -960,7 +990,23 @@ func (h *hist) stopReaders(rd *readers) (divs []div) {
 		return
 	}
 	rd.stop.Store(true)
-	rd.wg.Wait()
+	if !waitReaders(rd, h.panicked) {
+		rd.mu.Lock()
+		for _, w := range rd.wrong {
+			if strings.HasPrefix(w, "PANIC") {
+				divs = append(divs, div{"panic/reader", w, nil})
+			}
+		}
+		rd.mu.Unlock()
+		if !h.panicked && len(divs) == 0 {
+			h.c.mu.Lock()
+			h.c.inconcl = append(h.c.inconcl, fmt.Sprintf("reader threads of history %d (seed %d) did not finish within the watchdog", h.hi, h.seed))
+			h.c.mu.Unlock()
+		}
+		h.dead = true
+		h.panicked = true // abandoned readers may still hold the store
+		return
+	}
 	h.c.add("reader_gets_judged", rd.gets.Load())
 	h.c.add("judged", rd.gets.Load())
 	h.c.add("reader_getstats", rd.lens.Load())
@@ -1244,7 +1290,9 @@ func (h *hist) session_(nOps int, readOnly bool) {
 	if h.dead {
 		if rd != nil {
 			rd.stop.Store(true)
-			rd.wg.Wait()
+			if !waitReaders(rd, h.panicked) {
+				h.panicked = true
+			}
 		}
 		return
 	}
@@ -1391,7 +1439,7 @@ func runHistory(c *ctx, root *vlib.Rand, hi int, ops, nread, scale int, profile 
 			h.finalize(nil, "", "")
 		}
 	}
-	if h.db != nil {
+	if h.db != nil && !h.panicked {
 		func() {
 			defer func() { recover() }()
 			h.db.Close()
